@@ -889,6 +889,93 @@ def overwrites_stamps_and_shared_instances(ctx, workdir):
                  [[g.decode()[:300] for g in want], 3])
 
 
+def durations_locations_and_names(ctx, workdir):
+    """(a) freshness goes by the duration the cache HAS: a zero duration (given explicitly or by default) never
+    expires, a duration assigned to the cache object after it was built is the one lookups use; (b) the endpoint a
+    client was built with (location=) is that client's: a warm client built without one calls the WSDL's address, and
+    the other way round; (c) a document with names outside ASCII is cached and served like any other."""
+    import suds.cache
+    import suds.client
+    # (a)
+    for how in ("days=0", "seconds=0", "default", "assigned-later", "assigned-zero-later"):
+        for cls in (suds.cache.ObjectCache, suds.cache.FileCache):
+            d = tempfile.mkdtemp(dir=workdir)
+            clock = Clock()
+            value = {"k": 1} if cls is suds.cache.ObjectCache else b"bytes"
+            meta = {"stream": "durations", "how": how, "class": cls.__name__}
+            ctx.case(common.canon(meta), True)
+            try:
+                with patched(clock):
+                    if how == "days=0":
+                        c = cls(location=d, days=0)
+                    elif how == "seconds=0":
+                        c = cls(location=d, seconds=0, minutes=0)
+                    elif how == "assigned-zero-later":
+                        c = cls(location=d, hours=1)
+                        c.duration = datetime.timedelta(0)
+                    else:
+                        c = cls(location=d)
+                    if how == "assigned-later":
+                        c.duration = datetime.timedelta(seconds=100)
+                    c.put("k", value)
+                    for f in entry_files(d):
+                        clock.ctimes[os.path.abspath(os.path.join(d, f))] = 0
+                    clock.t = 50
+                    early = c.get("k")
+                    clock.t = 10 ** 7
+                    late = c.get("k")
+            except Exception as e:
+                ctx.fail("cache raised", meta, repr(e), "no exception")
+                continue
+            want = [value, None if how == "assigned-later" else value]
+            if [early, late] != want:
+                ctx.fail("a lookup does not go by the duration the cache has (zero: entries never expire)", meta,
+                         [repr(early), repr(late)], [repr(x) for x in want])
+            shutil.rmtree(d, ignore_errors=True)
+    # (b), (c)
+    schema = ('<xsd:element name="f"><xsd:complexType><xsd:sequence><xsd:element name="gr\u00f6\u00dfe" type="xsd:string"/>'
+              '</xsd:sequence><xsd:attribute name="\u00e9tat" type="xsd:string"/></xsd:complexType></xsd:element>'
+              '<xsd:element name="fResponse"><xsd:complexType><xsd:sequence><xsd:element name="r" type="xsd:string"/>'
+              '</xsd:sequence></xsd:complexType></xsd:element>')
+    w = wsdlkit.wsdl_doc(schema, "f", "fResponse", location="http://wsdl.invalid/address").decode()
+    w = w.replace("<wsdl:types>", '<wsdl:types xmlns:pr\u00e4fix="urn:unused">', 1).encode("utf-8")
+    reply = ('<e:Envelope xmlns:e="%s"><e:Body><fResponse xmlns="%s"><r>ok</r></fResponse></e:Body></e:Envelope>'
+             % (xmlread.ENV11, wsdlkit.TNS)).encode()
+    docs = {"main.wsdl": w}
+    for cls in (suds.cache.ObjectCache, suds.cache.DocumentCache):
+        for policy in (0, 1):
+            for first_loc, second_loc in ((None, None), ("http://override.invalid/x", None), (None, "http://override.invalid/y"),
+                                          ("http://override.invalid/x", "http://override.invalid/y")):
+                d = tempfile.mkdtemp(dir=workdir)
+                meta = {"stream": "locations-and-names", "cache": cls.__name__, "cachingpolicy": policy,
+                        "cold_location": first_loc, "warm_location": second_loc}
+                ctx.case(common.canon(meta), True)
+                try:
+                    got = []
+                    stores = []
+                    for loc in (first_loc, second_loc, first_loc):
+                        tr = wsdlkit.RecordingTransport(reply=reply)
+                        st = CountingStore(docs)
+                        stores.append(st)
+                        kw = {} if loc is None else {"location": loc}
+                        c = suds.client.Client("suds://main.wsdl", documentStore=st, cache=cls(location=d),
+                                               cachingpolicy=policy, transport=tr, **kw)
+                        c.service.f("v")
+                        got.append([tr.sent[-1]["url"], "gr\u00f6\u00dfe".encode("utf-8") in tr.sent[-1]["message"]])
+                except Exception as e:
+                    ctx.fail("client over a cold/warm cache failed", meta, repr(e), "a client")
+                    shutil.rmtree(d, ignore_errors=True)
+                    continue
+                want = [[loc or "http://wsdl.invalid/address", True] for loc in (first_loc, second_loc, first_loc)]
+                if got != want:
+                    ctx.fail("a warm client does not honour the options it was given (the endpoint of the client the "
+                             "cached object was built for shows through)", meta, got, want)
+                usable = (cls is suds.cache.ObjectCache) or policy == 0
+                if usable and (stores[1].opened or stores[2].opened):
+                    ctx.fail("warm client fetched documents", meta, [stores[1].opened, stores[2].opened], [[], []])
+                shutil.rmtree(d, ignore_errors=True)
+
+
 def run(ctx):
     # (the directory's name holds characters that mean something to glob / fnmatch / regular expressions)
     workdir = tempfile.mkdtemp(prefix="verif-c11 [v1]*?-")
@@ -900,6 +987,7 @@ def run(ctx):
         read_and_remove_failures(ctx, workdir)
         real_clock_and_file_urls(ctx, workdir)
         overwrites_stamps_and_shared_instances(ctx, workdir)
+        durations_locations_and_names(ctx, workdir)
         shared_dir(ctx, workdir)
         url_case(ctx, workdir)
         warm_clients(ctx, workdir)
